@@ -677,7 +677,7 @@ spif_ustr_splice(spif_ustr_t self, spif_ustridx_t idx, spif_ustridx_t cnt, spif_
         memcpy(tmp, self->s, idx);
         ptmp += idx;
     }
-    if (!SPIF_OBJ_ISNULL(other)) {
+    if (!SPIF_OBJ_ISNULL(other) && other->len) {
         memcpy(ptmp, other->s, other->len);
         ptmp += other->len;
     }
